@@ -61,7 +61,12 @@ struct HistEngine : Engine {
 		for (int i = 0; i < ndocs; i++) docs.push(pick_doc(w, dopt));
 		// sometimes one document is OPML: conversions of it carry EXT_PARSE_OPML and may replace the caller's source in place (documented)
 		int opml_doc = -1;
-		if (!opml_corpus().empty() && w.chance(1, 6)) { opml_doc = (int)w.below((uint64_t)ndocs); docs[(size_t)opml_doc] = opml_corpus()[w.below(opml_corpus().size())]; }
+		unsigned long import_ext = X_PARSE_OPML;
+		if (!opml_corpus().empty() && w.chance(1, 6)) {
+			opml_doc = (int)w.below((uint64_t)ndocs);
+			if (!itmz_corpus().empty() && w.chance(1, 3)) { docs[(size_t)opml_doc] = itmz_corpus()[w.below(itmz_corpus().size())]; import_ext = X_PARSE_ITMZ; }
+			else docs[(size_t)opml_doc] = opml_corpus()[w.below(opml_corpus().size())];
+		}
 		p["docs"] = docs;
 		p["opml_doc"] = opml_doc;
 		// a few simulated files so that transclusion and assets can be part of the noise
@@ -106,7 +111,7 @@ struct HistEngine : Engine {
 			if (k < 30 || (!use_eng && k < 70)) {
 				o["k"] = "CONV"; o["family"] = w.chance(1, 2) ? "s" : "d"; o["call"] = w.chance(2, 3) ? "convert" : "to_data";
 				o["doc"] = (int64_t)w.below((uint64_t)ndocs); o["fmt"] = fmt_for(); o["ext"] = (int64_t)exts[w.below(exts.size())]; o["lang"] = (int64_t)w.below(7);
-				if ((int)o.geti("doc") == opml_doc) o["ext"] = (int64_t)((unsigned long)o.geti("ext") | X_PARSE_OPML);
+				if ((int)o.geti("doc") == opml_doc) o["ext"] = (int64_t)((unsigned long)o.geti("ext") | import_ext);
 				if (o.gets("family") == "d" && w.chance(1, 8)) { o["call"] = "to_file"; }      // mmd_d_string_convert_to_file through the simulated file layer
 				if (o.gets("call") == "to_data") {
 					if (use_pkg && w.chance(1, 2)) { static const int pf[] = {FMT_EPUB, FMT_ODT, FMT_TEXTBUNDLE_COMPRESSED, FMT_ITMZ}; o["fmt"] = pf[w.below(4)]; }
@@ -118,7 +123,7 @@ struct HistEngine : Engine {
 				o["slot"] = s;
 				if (!S.live) {
 					o["k"] = "E_CREATE"; o["doc"] = (int64_t)w.below((uint64_t)ndocs); o["ext"] = (int64_t)exts[w.below(exts.size())]; o["with"] = w.chance(1, 2) ? "string" : "dstring";
-					if ((int)o.geti("doc") == opml_doc) o["ext"] = (int64_t)((unsigned long)o.geti("ext") | X_PARSE_OPML);
+					if ((int)o.geti("doc") == opml_doc) o["ext"] = (int64_t)((unsigned long)o.geti("ext") | import_ext);
 					S = PSlot(); S.live = true; S.doc = (int)o.geti("doc"); S.opml = ((int)o.geti("doc") == opml_doc);
 				} else if (S.opml && S.spent && j < 60) { continue; }
 				else if (j < 30) { o["k"] = "E_CONVERT"; o["fmt"] = fmt_for(); o["env"] = gen_env(en); S.parsed = true; S.exported = true; S.stale = false; }
@@ -179,7 +184,7 @@ struct HistEngine : Engine {
 			std::string k = o.gets("k");
 			int s = (int)o.geti("slot") % 3;
 			PSlot & S = sl[s];
-			if (k == "E_CREATE") { if (S.live) continue; S = PSlot(); S.live = true; S.opml = ((unsigned long)o.geti("ext") & X_PARSE_OPML) != 0; }
+			if (k == "E_CREATE") { if (S.live) continue; S = PSlot(); S.live = true; S.opml = ((unsigned long)o.geti("ext") & (X_PARSE_OPML | X_PARSE_ITMZ)) != 0; }
 			else if (k.compare(0, 2, "E_") == 0) {
 				if (!S.live) continue;
 				if (S.opml && parses(k)) { if (S.spent) continue; S.spent = true; }
